@@ -23,6 +23,37 @@ def job_battery(job):
     known2 = sorted(set(known) | {c["n"] for c in extra})
     lines, g, L, known2, grid = drivers.make_trace(directed, removal, list(calls) + extra, labeling=lab, rng=rng,
                                                    known=known2, grid=grid, ret_obj=True)
+    # node attribute setters: every form, on nodes of the graph (the reference follows them)
+    for _ in range(rng.choice([0, 1, 2, 3])):
+        present = [n for n in known2 if g.has_node(L.node(n))]
+        if not present:
+            break
+        how = rng.choice(["update_node_attr", "update_node_attr_from", "set_dict", "set_const", "clear_attr"])
+        a = rng.randint(1, 4)
+        if how == "update_node_attr":
+            ns = [rng.choice(present)]
+            fn = lambda: g.update_node_attr(L.node(ns[0]), lab=a)
+        elif how == "update_node_attr_from":
+            ns = rng.sample(present, rng.randint(1, len(present)))
+            fn = lambda: g.update_node_attr_from([L.node(n) for n in ns], lab=a)
+        elif how == "set_dict":
+            ns = rng.sample(present, rng.randint(1, len(present)))
+            fn = lambda: core.dn.set_node_attributes(g, {L.node(n): a for n in ns + [max(known2) + 3]}, name="lab")
+            L.node(max(known2) + 3)
+        elif how == "set_const":
+            ns = list(present)
+            fn = lambda: core.dn.set_node_attributes(g, a, name="lab")
+        else:
+            ns = [rng.choice(present)]
+            a = 0
+            fn = lambda: g.update_node_attr(L.node(ns[0]))
+        try:
+            fn()
+            res = "ok"
+        except Exception as ex:
+            res = core.exc_name(ex)
+        lines.append({"op": "set_attr", "how": how, "ns": ns, "a": a, "fork": False, "res": res,
+                      "obs": core.observe(g, L, known2, grid)})
     q = battery.queries(g, L, known2, grid, rng=rng)
     lines.append({"op": "battery", "fork": False, "res": "ok", "obs": core.observe(g, L, known2, grid), "q": q})
     return lines
